@@ -341,11 +341,11 @@ pub fn run(run: &'static Run) {
          after every transition, and with git for-each-ref/symbolic-ref/rev-parse on every distinct state; failed prepare => no file changed, never a *.lock left; \
          non-trivial = transition that changed the map or was refused",
         if rich { ",sym->refs/tags/t" } else { "" },
-        if rich { " + RefLog::Only variants" } else { "" },
+        if rich { " + RefLog::Only variants of all one-edit transactions with expected Any/MustExistAndMatch(id0)" } else { " + 12 RefLog::Only probes (MustExist on refs/tags/t, MustExistAndMatch(id0) on refs/heads/a and through HEAD)" },
         steps_main.len() - n_tx,
     ));
     if rich && depth >= plain_from {
-        run.rule(format!("from depth {plain_from} on, the alphabet per state is the plain one ({n_tx_last} transactions: without sym->refs/tags/t, RefLog::Only and the swapped 2-edit transactions)"));
+        run.rule(format!("from depth {plain_from} on, the alphabet per state is the plain one ({n_tx_last} transactions: without sym->refs/tags/t, with 12 RefLog::Only probes only, without the swapped 2-edit transactions)"));
     }
     run.assume("directory/file pair refs/heads/a vs refs/heads/a/b: either refusal (nothing changes) or the plain map result is accepted (loose storage cannot hold both, packed storage can); a failing commit() there may be partial as documented");
     run.assume("an absent refs/ directory is equivalent to an empty one (gitoxide deliberately prunes it, git needs it): it is re-created before git is asked");
